@@ -478,8 +478,24 @@ def roundtrip_failures(spec, prefix, obj=None, tab=None):
         m, f = flatten(obj, prefix)
     except Exception as e:  # noqa
         return [("flatten", "exception:" + type(e).__name__, f"flatten raised {type(e).__name__}: {ascii(str(e))[:200]}")]
-    for via in ("direct", "yaml", "views"):
+    for via in ("direct", "yaml", "views", "siblings"):
         try:
+            f2 = f
+            if via == "siblings":
+                # as in Snapshot.restore: the manifest / leaf map handed to inflate hold OTHER statefuls too, among them
+                # keys of which this prefix is a string prefix, and keys that are string prefixes of it
+                m2, f2 = dict(m), dict(f)
+                for other in (prefix + "x", prefix + "_ema", prefix[:-1] if len(prefix) > 1 else prefix + "y"):
+                    if other == prefix:
+                        continue
+                    mo, fo = flatten({"w": 1, "sub": {"k": [2, 3]}}, other)
+                    m2.update(mo)
+                    f2.update(fo)
+                back = inflate(m2, f2, prefix)
+                r = diff(obj, back)
+                if r:
+                    out.append((via, r[0], r[1]))
+                continue
             m2 = m if via == "direct" else (via_yaml(m) if via == "yaml" else via_views(m, f))
             back = inflate(m2, f, prefix)
         except Exception as e:  # noqa
